@@ -20,6 +20,7 @@ func checkC07(c *Ctx, r *Report) {
 	st := c.GetStaged()
 	stagedErrors(r, "C07", st)
 	c07Flows(c, r)
+	c10DirectiveWords(c, r, "C07.c")
 	// the Dollar window and the returned *ValType point into the stack array: it must belong to one parse
 	c15FreshStackAll(r, "C07.b←C15.c", st)
 	type backend struct {
